@@ -196,6 +196,8 @@ pub struct SendOpts {
 	pub secret_flip: Option<u8>,
 	/// use the secret of another registration
 	pub secret_of_reg: Option<usize>,
+	/// final CLTV delta per part (default: the same `final_cltv` for every part)
+	pub part_cltv: Option<Vec<u32>>,
 	pub class: &'static str,
 }
 
@@ -226,6 +228,18 @@ pub struct World {
 	pub total_writes: Vec<u64>,
 	pub crashes_handled: u64,
 	pub writes_at_open: Vec<u64>,
+	// ---- on-chain scenarios ----
+	pub captured: Vec<crate::onchain::Captured>,
+	/// (node, commitment number) pairs: `node` has processed the revocation of its counterparty's commitment `number`
+	pub revocations_seen: std::collections::HashSet<(usize, u64)>,
+	/// counterparty commitment transactions by txid: (signing node, commitment number)
+	pub cp_commit_numbers: HashMap<Txid, (usize, u64)>,
+	pub close: Option<crate::onchain::CloseRecord>,
+	pub attacker_htlc_txs: Vec<Transaction>,
+	pub onchain_done: bool,
+	/// miner policy: a relayed transaction is held back for up to this many blocks (0 = mined at once)
+	pub miner_delay_max: u32,
+	pub miner_release: HashMap<Txid, u32>,
 }
 
 fn lk(a: usize, b: usize) -> ((usize, usize), usize) {
@@ -242,7 +256,14 @@ impl World {
 		log.trace.store(trace && std::env::var("VERIF_TAP_TRACE").is_ok(), Ordering::Relaxed);
 		let best = BlockLocator::new(bitcoin::constants::genesis_block(bitcoin::Network::Regtest).header.block_hash(), crate::chain::BASE_HEIGHT);
 		let nodes: Vec<Node> = node_cfgs.into_iter().enumerate().map(|(i, c)| Node::new(i, c, &log, fee_now, best.clone())).collect();
-		World { rng: seed_rng, log, log_cursor: 0, nodes, chans: vec![], links: HashMap::new(), chain: Chain::new(), obs: VecDeque::new(), step: 0, claimable: vec![], payments: vec![], regs: vec![], script: vec![], trace, fee_now, next_user_id: 1, funding_txs: HashMap::new(), spendable: vec![], watch_counts: HashMap::new(), snapshot_counts: vec![], total_writes: vec![], crashes_handled: 0, writes_at_open: vec![] }
+		World { rng: seed_rng, log, log_cursor: 0, nodes, chans: vec![], links: HashMap::new(), chain: Chain::new(), obs: VecDeque::new(), step: 0, claimable: vec![], payments: vec![], regs: vec![], script: vec![], trace, fee_now, next_user_id: 1, funding_txs: HashMap::new(), spendable: vec![], watch_counts: HashMap::new(), snapshot_counts: vec![], total_writes: vec![], crashes_handled: 0, writes_at_open: vec![], captured: vec![], revocations_seen: Default::default(), cp_commit_numbers: HashMap::new(), close: None, attacker_htlc_txs: vec![], onchain_done: false, miner_delay_max: 0, miner_release: HashMap::new() }
+	}
+	/// Whether the victim (the other party) has processed the revocation of this captured commitment.
+	pub fn is_revoked(&self, c: &crate::onchain::Captured) -> bool {
+		match self.cp_commit_numbers.get(&c.txid) {
+			Some((signer, num)) => *signer != c.node && self.revocations_seen.contains(&(*signer, *num)),
+			None => false,
+		}
 	}
 	pub fn note(&mut self, s: String) {
 		if self.trace {
@@ -303,7 +324,11 @@ impl World {
 				},
 				_ => {},
 			}
+			if let Ev::ValidateRevocation { node, idx, .. } = &ev {
+				self.revocations_seen.insert((*node, *idx));
+			}
 			if let Ev::SignCounterparty { node, c, .. } = &ev {
+				self.cp_commit_numbers.insert(c.txid, (*node, c.num));
 				if let Some(ft) = c.funding {
 					if let Some(ch) = self.chans.iter_mut().find(|ch| ch.funding_txid() == Some(ft)) {
 						let p = ch.party(*node);
@@ -558,6 +583,18 @@ impl World {
 			Event::PaymentClaimable { payment_hash, amount_msat, purpose, claim_deadline, .. } => {
 				self.claimable.push(Claimable { node: n, hash: *payment_hash, preimage: purpose.preimage(), amount_msat: *amount_msat, deadline: *claim_deadline, step: self.step });
 			},
+			Event::BumpTransaction(bev) => {
+				// the user's duty for anchor channels: hand the event to the library's own bump handler, backed by
+				// a wallet with confirmed coins
+				use lightning::events::bump_transaction::sync::BumpTransactionEventHandlerSync;
+				use lightning::util::wallet_utils::WalletSync;
+				let wallet = Arc::new(crate::onchain::wallet_of(self, n));
+				let node = &self.nodes[n];
+				let src = Arc::new(WalletSync::new(wallet, node.logger.clone()));
+				let handler = BumpTransactionEventHandlerSync::new(node.bcast.clone(), src, node.keys.clone(), node.logger.clone());
+				handler.handle_event(bev);
+				self.drain_taps();
+			},
 			Event::SpendableOutputs { outputs, .. } => {
 				for o in outputs {
 					self.spendable.push((n, o.clone()));
@@ -662,7 +699,17 @@ impl World {
 	pub fn mine(&mut self, blocks: u32) {
 		for _ in 0..blocks {
 			self.relay_broadcasts();
-			let b = self.chain.mine(|_| true);
+			let next_h = self.chain.height() + 1;
+			let dmax = self.miner_delay_max;
+			let b = if dmax == 0 {
+				self.chain.mine(|_| true)
+			} else {
+				let (rng, rel) = (&mut self.rng, &mut self.miner_release);
+				self.chain.mine(|tx| {
+					let r = rel.entry(tx.compute_txid()).or_insert_with(|| next_h + if rng.chance(1, 2) { 0 } else { rng.below(dmax as u64 + 1) as u32 });
+					next_h >= *r
+				})
+			};
 			self.log.height.store(b.height, Ordering::SeqCst);
 			if self.trace {
 				eprintln!("step {} MINE height {} with {} txs", self.step, b.height, b.txs.len());
@@ -850,8 +897,9 @@ impl World {
 		let total: u64 = parts.iter().map(|p| p.1).sum();
 		let mut paths = vec![];
 		let mut dst = src;
-		for (chans, amt) in parts {
-			let (p, d) = self.build_path(src, chans, *amt, final_cltv, None);
+		for (k, (chans, amt)) in parts.iter().enumerate() {
+			let fc = opts.part_cltv.as_ref().and_then(|v| v.get(k).cloned()).unwrap_or(final_cltv);
+			let (p, d) = self.build_path(src, chans, *amt, fc, None);
 			paths.push(p);
 			dst = d;
 		}
